@@ -903,3 +903,10 @@ def results_from_json(j):
     from tsdate import core
     return core.Results(unhexlist(j["posterior_mean"]), unhexlist(j["posterior_var"]), unhexlist(j["mutation_mean"]),
                         unhexlist(j["mutation_var"]), None, np.array(j["mutation_node"], dtype=np.int32), None)
+
+
+
+def raised_in(exc, *function_names):
+    """does the traceback of exc pass through one of these functions?"""
+    import traceback
+    return any(fr.name in function_names for fr in traceback.extract_tb(exc.__traceback__))
